@@ -216,6 +216,7 @@ func checkC12(c *core.Ctx) error {
 	}
 	// ---- R1 clones
 	checkClones(c, e)
+	checkCloneComplete(c)
 	return nil
 }
 
